@@ -45,7 +45,7 @@ fn bj(b: &Universal2DBox) -> serde_json::Value {
 
 pub fn run(tier: Tier) -> Report {
     let rep = Report::new("C15", tier);
-    rep.set_rule("all unordered sets of <= 3 integer-cornered boxes on a 5-point lattice and of 4 on a 4-point lattice (thorough: also 3 on a 6-point lattice) against exact cell counting, all 6 orderings of each 3-set; enumerated near-degenerate families (identical, shared / collinear edges, right-angle rotations, the angle menu of C08, 1..8 boxes) against inclusion-exclusion with an independent convex clipper; every ordered set of 2-3 boxes of a 4-box rotated menu x 6 preparations per box (polygon generated, then moved / turned / resized in place, with and without generating it again). Non-trivial = at least two boxes overlap.");
+    rep.set_rule("all unordered sets of <= 3 integer-cornered boxes on a 5-point lattice and of 4 on a 4-point lattice (thorough: also 3 on a 6-point lattice) against exact cell counting, all 6 orderings of each 3-set; enumerated near-degenerate families (identical, shared / collinear edges, right-angle rotations, the angle menu of C08, 1..8 boxes; crowds of 9..40 boxes - pairs, chains, an isolated row with a covered / overlapped tail - in the given order and rotated) against inclusion-exclusion with an independent convex clipper; every ordered set of 2-3 boxes of a 4-box rotated menu x 6 preparations per box (polygon generated, then moved / turned / resized in place, with and without generating it again). Non-trivial = at least two boxes overlap.");
     rep.assume("exact integer cell counting / engine/src/geom.rs inclusion-exclusion; the crate's share is own/(area+1e-5), compared with tolerance 2e-5 + 1e-5/area");
     let evals = AtomicU64::new(0);
     let nontrivial = AtomicU64::new(0);
@@ -199,7 +199,53 @@ pub fn run(tier: Tier) -> Report {
             }
         }
     });
-        // prepared-then-changed boxes: a rotated box whose polygon was generated (gen_vertices) and which was then
+        // crowds: 9..=40 boxes (more than one work chunk of the parallel stage), each overlapping at most two others;
+    // the reference considers only the neighbours that really intersect the box; every rotation of the input
+    // order by 1 and by half the length gives the same share for the same box
+    {
+        let mut crowds = 0u64;
+        for k in 9..=40usize {
+            let mut fams: Vec<(&str, Vec<Universal2DBox>)> = vec![];
+            fams.push(("crowd-pairs", (0..k).map(|i| if i % 2 == 0 { Universal2DBox::ltwh(10.0 * i as f32, 0.0, 4.0, 2.0) } else { Universal2DBox::ltwh(10.0 * (i - 1) as f32 + 2.0, 0.5, 4.0, 2.0) }).collect()));
+            fams.push(("crowd-chain", (0..k).map(|i| Universal2DBox::ltwh(3.0 * i as f32, 0.25 * (i % 2) as f32, 4.0, 2.0)).collect()));
+            fams.push(("crowd-tail", (0..k).map(|i| if i + 3 < k { Universal2DBox::ltwh(10.0 * i as f32, 0.0, 4.0, 2.0) } else if i + 3 == k { Universal2DBox::ltwh(-50.0, -50.0, 6.0, 6.0) } else if i + 2 == k { Universal2DBox::ltwh(-49.0, -49.0, 2.0, 2.0) } else { Universal2DBox::new(-47.0, -44.0, Some(0.3), 1.0, 3.0) }).collect()));
+            for (name, boxes) in fams {
+                crowds += 1;
+                evals.fetch_add(1, Ordering::Relaxed);
+                nontrivial.fetch_add(1, Ordering::Relaxed);
+                let polys: Vec<Vec<(f64, f64)>> = boxes.iter().map(|b| RBox::from_u(b).corners()).collect();
+                let case = || json!({"family":name,"k":k,"boxes":boxes.iter().map(bj).collect::<Vec<_>>()});
+                let expected: Vec<f64> = (0..k)
+                    .map(|i| {
+                        let near: Vec<Vec<(f64, f64)>> = polys.iter().enumerate().filter(|(j, p)| *j != i && geom::shoelace(&geom::convex_clip(&polys[i], p)).abs() > 0.0).map(|(_, p)| p.clone()).collect();
+                        let area = RBox::from_u(&boxes[i]).area();
+                        ((area - geom::covered_area(&polys[i], &near)) / area).clamp(0.0, 1.0)
+                    })
+                    .collect();
+                match shares(&boxes) {
+                    Err(m) => rep.violation(Violation { key: format!("own-area/panic/{name}"), what: m, replay: case() }),
+                    Ok(sv) => {
+                        for i in 0..k {
+                            if !(sv[i] >= 0.0 && sv[i] <= 1.0) || (sv[i] as f64 - expected[i]).abs() > 1e-4 {
+                                rep.violation(Violation { key: format!("own-area/value/{name}"), what: format!("{k} boxes, box {i}: share {} expected {}", sv[i], expected[i]), replay: case() });
+                                break;
+                            }
+                        }
+                        for r in [1usize, k / 2] {
+                            let rot: Vec<Universal2DBox> = (0..k).map(|i| boxes[(i + r) % k].clone()).collect();
+                            if let Ok(rs) = shares(&rot) {
+                                if (0..k).any(|i| (rs[i] - sv[(i + r) % k]).abs() > 1e-5) {
+                                    rep.violation(Violation { key: format!("own-area/order-dependent/{name}"), what: format!("{k} boxes: the shares change when the input order is rotated by {r}"), replay: case() });
+                                }
+                            }
+                        }
+                    }
+                }
+            }
+        }
+        rep.extra("crowds_of_9_to_40_boxes", json!(crowds));
+    }
+    // prepared-then-changed boxes: a rotated box whose polygon was generated (gen_vertices) and which was then
     // moved / turned / resized in place - with or without generating the polygon again - owns what a freshly
     // constructed box with the same fields owns
     {
